@@ -71,7 +71,16 @@ def verify_field_validator(run, stats):
             stats.by_backend[o.backend] += 1
         elif o.answer == "sat":
             m = {k: v for k, v in (o.model or {}).items() if not k.endswith(".oid")}
-            run.violation(f"{label}:post", f"_generate_field_validator emits a field definition that does not carry the validator / default the statement requires ({o.meta.get('impl')})", {"model": m, "path": o.meta, "solver_output": o.solver_output[-800:]}, False)
+            try:
+                native = field_validator_native_search()
+            except Exception as e:  # noqa
+                native = []
+                run.notes.append(f"native search for {label} raised {e!r}")
+            what = f"_generate_field_validator emits a field definition that does not carry the validator / default the statement requires ({o.meta.get('impl')})"
+            if native:
+                what += f"; e.g. {native[0]['call']} returns {native[0]['observed']!r}"
+            run.violation(f"{label}:post", what, {"model": m, "path": o.meta, "native_failures": native[:4], "solver_output": o.solver_output[-800:]}, bool(native))
+            break
         else:
             run.undecide(f"{o.name}: {o.answer}")
 
@@ -146,6 +155,46 @@ def verify_member_contract(run, stats, dp, what_failed: str, stand_in: str) -> N
             what += f"; e.g. {shown} gives {native[0].get('lines', native[0].get('observed'))}"
         run.violation(f"{dp.LABEL}:post", what, {"model": m, "path": o.meta, "failed_paths": len(failed), "native_failures": native[:4], "solver_output": o.solver_output[-800:]}, bool(native))
 
+
+
+def field_validator_native_search():
+    """The contract of _generate_field_validator evaluated on the real function over the finite grid kind x base name x literal value x optional."""
+    import importlib
+    import os
+    import sys
+    from types import SimpleNamespace as NS
+
+    from contracts.genhelpers import VALIDATOR_TOKENS
+
+    repo = os.environ.get("VERIF_REPO", "/repo")
+    if repo not in sys.path:
+        sys.path.insert(0, repo)
+    for m in [m for m in list(sys.modules) if m == "generator" or m.startswith("generator.")]:
+        f = getattr(sys.modules[m], "__file__", "") or ""
+        if not f.startswith(repo + os.sep):
+            del sys.modules[m]
+    fn = importlib.import_module("generator.plugins.python.utils")._generate_field_validator
+    fails = []
+    toks = sorted(set(VALIDATOR_TOKENS.values()))
+    for kind in ("base", "reference", "array", "map", "and", "or", "tuple", "literal", "stringLiteral"):
+        for name in (list(VALIDATOR_TOKENS) + ["null"]) if kind == "base" else ["X"]:
+            for value in ("create", "") if kind == "stringLiteral" else ("",):
+                for optional in (False, True, None):
+                    t = NS(kind=kind, name=name, value=value, items=[])
+                    call = f"_generate_field_validator({{kind: {kind!r}, name: {name!r}, value: {value!r}}}, {optional!r})"
+                    try:
+                        r = fn(t, optional)
+                    except Exception as e:  # noqa
+                        fails.append({"call": call, "observed": f"raises {type(e).__name__}: {e}"})
+                        continue
+                    if kind == "stringLiteral":
+                        ok = any(f"in_([{q}{value}{q}])" in r for q in "'\"") and any(f"default={q}{value}{q}" in r for q in "'\"")
+                    else:
+                        want = VALIDATOR_TOKENS.get(name) if kind == "base" else None
+                        ok = all((tok in r) == (tok == want) for tok in toks) and (("default=None" in r) == bool(optional)) and (bool(optional) or "attrs.validators.optional(" not in r) and (not (optional and want) or "attrs.validators.optional(" in r)
+                    if not (ok and isinstance(r, str) and "attrs.field(" in r):
+                        fails.append({"call": call, "observed": r})
+    return fails
 
 
 # ---------------------------------------------------------------------------------------------
